@@ -72,6 +72,8 @@ class PathCtx:
         self.max_depth = 0
         self.inputs = {}
         self.stats = engine.stats
+        self.last_model = None
+        self._check_model = None
 
     # ---- symbols -------------------------------------------------------------------------
     def fresh_bv(self, name, bits):
@@ -150,6 +152,9 @@ class PathCtx:
             return
         self.pc.append(cond)
         self.solver.add(cond)
+        lm = self.last_model
+        if lm is not None and not z3.is_true(lm.eval(cond, model_completion=True)):
+            self.last_model = None
 
     def check(self, extra=None):
         t0 = time.time()
@@ -158,6 +163,7 @@ class PathCtx:
             self.solver.push()
             self.solver.add(extra)
         r = self.solver.check()
+        self._check_model = self.solver.model() if r == z3.sat else None
         if extra is not None:
             self.solver.pop()
         self.stats.solver_s += time.time() - t0
@@ -171,19 +177,30 @@ class PathCtx:
         if i < len(self.prefix):
             k = self.prefix[i]
         else:
-            feas = []
+            feas, mods = [], {}
+            lm = self.last_model
             for j, c in enumerate(options):
-                if c is True or self.check(c):
+                if c is True:
                     feas.append(j)
+                    mods[j] = lm
+                elif lm is not None and z3.is_true(lm.eval(c, model_completion=True)):
+                    # the model of the current path condition already satisfies this option
+                    feas.append(j)
+                    mods[j] = lm
+                elif self.check(c):
+                    feas.append(j)
+                    mods[j] = self._check_model
             if not feas:
                 raise Infeasible(label)
             k = feas[0]
+            self.last_model = mods.get(k)
             for alt in feas[1:]:
                 self.pending.append(self.decisions + [alt])
             self.stats.forks += len(feas) - 1
         self.decisions.append(k)
         if options[k] is not True:
-            self.assume(options[k])
+            self.pc.append(options[k])
+            self.solver.add(options[k])
         self.trace.append((label, k))
         return k
 
@@ -230,19 +247,25 @@ class Engine:
         self.summaries_on = True
 
     # ---------------------------------------------------------------------------------- explore
-    def explore(self, harness, max_paths=None, deadline=None, count=True):
+    def explore(self, harness, max_paths=None, deadline=None, count=True, initial=None, bfs=False):
         """Run `harness(ctx)` on every feasible path.  Yields (ctx, outcome) where outcome is
-        ('ok', value) | ('panic', Panic) | ('unsupported', exc)."""
-        stack = [[]]
+        ('ok', value) | ('panic', Panic) | ('depth', exc).  `initial` = decision prefixes to start
+        from (sub-trees handed out by a previous breadth-first expansion); when the exploration
+        stops early the unexplored prefixes are left in self.frontier."""
+        from collections import deque
+        work = deque([list(p) for p in initial] if initial is not None else [[]])
+        self.frontier = []
         n = 0
-        while stack:
+        while work:
             if max_paths is not None and n >= max_paths:
-                yield None, ("truncated", len(stack))
+                self.frontier = [list(p) for p in work]
+                yield None, ("truncated", len(work))
                 return
             if deadline is not None and time.time() > deadline:
-                yield None, ("timeout", len(stack))
+                self.frontier = [list(p) for p in work]
+                yield None, ("timeout", len(work))
                 return
-            prefix = stack.pop()
+            prefix = work.popleft() if bfs else work.pop()
             ctx = PathCtx(self, prefix)
             try:
                 val = harness(ctx)
@@ -250,11 +273,11 @@ class Engine:
             except Panic as p:
                 out = ("panic", p)
             except Infeasible:
-                stack.extend(reversed(ctx.pending))
+                work.extend(ctx.pending if bfs else reversed(ctx.pending))
                 continue
             except DepthExceeded as d:
                 out = ("depth", d)
-            stack.extend(reversed(ctx.pending))
+            work.extend(ctx.pending if bfs else reversed(ctx.pending))
             n += 1
             if count:
                 self.stats.paths += 1
